@@ -43,6 +43,9 @@ def family():
         "mixed": {"v": [(0, "SE2"), (1, "SE3"), (2, "R2"), (3, "R3"), (4, "SE3"), (5, "SE2")],
                   "e": [("odo", 5, 0), ("lmk", 0, 2, "identity"), ("lmk", 1, 3, 8), ("lmk", 4, 3, 0)], "params": "registered"},
         "vertices-only": {"v": [(1, "R2"), (2, "R3"), (3, "SE2"), (4, "SE3")], "e": []},
+        # the same measurement recorded twice: two edges whose lines in the file are textually identical ("=j": the numbers of edge j)
+        "duplicate-edges": {"v": [(0, "SE2"), (1, "SE2"), (2, "R2"), (3, "SE3"), (4, "R3")],
+                            "e": [("odo", 0, 1), ("odo", 0, 1, "=0"), ("lmk", 1, 2, "identity"), ("lmk", 1, 2, "identity", "=2"), ("lmk", 3, 4, 6), ("lmk", 3, 4, 6, "=4")]},
     }
 
 
@@ -56,6 +59,9 @@ def build(k, spec, name):
     es = []
     offsets = {}
     for j, e in enumerate(spec["e"]):
+        if isinstance(e[-1], str) and e[-1].startswith("="):
+            j = int(e[-1][1:])          # same symbol names as that edge: identical numbers, distinct objects
+            e = e[:-1]
         if e[0] == "odo":
             T = types[e[1]]
             es.append(r.EdgeOdometry([e[1], e[2]], k.spd_matrix("%s.O%d" % (name, j), POSE_C[T]), k.pose(T, "%s.z%d" % (name, j))))
